@@ -18,7 +18,8 @@ RULE = ("tagged trajectories (pose k carries x = k, heading k*delta, stamp t0 + 
         "pi/8-heading grids and random geometry with stationary stretches, rad/deg, via trajectory and filters; time crop with "
         "bounds {None, inside, on a stamp, outside, empty, reversed}; three splitters with thresholds incl. 0 and realised steps; "
         "merge of 1-6 interleaved/nested/tied trajectories. Non-trivial = output strictly smaller than input (or >= 2 parts / "
-        ">= 2 merged inputs); enumerated cases are distinct by construction, drawn ones by SHA-1")
+        ">= 2 merged inputs); enumerated cases are distinct by construction, drawn ones by SHA-1"
+        ' Round-3 additions: merge inputs with pre-read views, merged matrix view checked; evo_traj --downsample/--motion_filter/--merge with and without --ref (cli_traj).')
 ASSUMPTIONS = ["down-sample spacing bound |id_k - k(n-1)/(N-1)| <= 1 (linspace floor)",
                "distance/speed/angle threshold decisions inside a 1e-9 relative margin accept either outcome; integer grids are exact"]
 
